@@ -472,7 +472,8 @@ def _show(v):
 
 def run_case(case):
     r = _Run(case)
-    lb = [f'm={min(case["m"], 10)}{"+" if case["m"] > 10 else ""}', f't={case["t"]}', f'prss={case["prss"]}',
+    lb = [f'm={min(case["m"], 10)}{"+" if case["m"] > 10 else ""}', f't={min(case["t"], 5)}{"+" if case["t"] > 5 else ""}',
+          f'prss={case["prss"]}', 'pid>=256' if max(case['client'], case['server']) >= 256 else 'pid<256',
           'pair=' + ('0,x' if case['client'] == 0 else 'reversed' if case['client'] > case['server'] else 'i,j')]
     try:
         r.run()
@@ -524,16 +525,17 @@ def _config(draw, tier):
         server = min(max(server, client + 1), m - 1)
     else:
         m = draw(st.one_of(st.integers(2, 6), st.integers(2, 9 if tier == 'quick' else 12)))
-        t = draw(st.integers(0, (m - 1) // 2))
-        prss = draw(st.sampled_from([True, True, False]))
+        tmax = (m - 1) // 2
+        t = draw(st.one_of(st.integers(0, tmax), st.integers(0, tmax).map(lambda x: tmax - x)))
+        prss = draw(st.sampled_from([True, True, True, False]))
         a = draw(st.integers(0, m - 1))
         b = draw(st.integers(0, m - 2))
         if b >= a:
             b += 1
         client, server = min(a, b), max(a, b)
-        if draw(st.integers(0, 2)) == 0:
-            client = 0  # party 0 holds most keys
-        if draw(st.integers(0, 11)) == 0:
+        if draw(st.integers(0, 2)) == 0 or (prss and t == 0 and draw(st.integers(0, 3)) > 0):
+            client = 0  # party 0 holds most keys (all of them for t=0)
+        if draw(st.sampled_from([0] * 19 + [1])):
             client, server = server, client  # docstring allows either role; runtime never does this
     return dict(m=m, t=t, prss=prss, client=client, server=server, seed=draw(st.integers(0, 2**32)))
 
